@@ -380,6 +380,11 @@ class Translator:
         for pat, rep in self.cfg.get('fn_rename', []):
             cn2 = re.sub(pat, rep, cn)
             if cn2 != cn and cn2 not in used: cn = cn2; break
+            if cn2 != cn and self.cfg.get('rename_numbered'):
+                # two instantiations that a rule maps to the same short name (e.g. T = X & and T = X): the later one is numbered
+                k = 2; c3 = cn2
+                while c3 in used: c3 = f'{cn2}_{k}'; k += 1
+                cn = c3; break
         self.funcnames[i] = cn
         if getattr(self, '_pending_sig', None): self.funcnames[self._pending_sig] = cn; self._pending_sig = None
         return cn
@@ -548,7 +553,7 @@ class Translator:
         if t.cls == 'record' and t.c not in self.cfg.get('value_records', []):
             # placement new of a record of this unit: its extracted constructor runs on the storage
             c = self.find_ctor(t, cs); self.enqueue(c)
-            a = [f'(({t.c} *)({self.E(place[0], cx)}))'] + self.pass_args(self.params_of(c), cs.get('inner', []), cx) + self.ghost_args()
+            a = [f'(({t.c} *)({self.E(place[0], cx)}))'] + self.pass_ctor_args(c, cs, cs.get('inner', []), cx) + self.ghost_args()
             return f'{self.func_cname(c)}({", ".join(a)})'
         return f'PLACEMENT_NEW({t.c}, {self.E(place[0], cx)}, {self.E(ctor[0], cx)})'
 
@@ -763,6 +768,16 @@ class Translator:
         self._arg_slices = slices      # statements hoisted by each argument (consumed at once by unsequenced_args)
         return out
 
+    def pass_ctor_args(self, ctor, node, args, cx):
+        """arguments of a constructor call: T(a, b) leaves their evaluation order unspecified exactly like a function
+        call; T{a, b} (clang: "list": true) evaluates them left to right"""
+        params = self.params_of(ctor)
+        a = self.pass_args(params, args, cx)
+        if node is not None and node.get('list'):
+            self._arg_slices = None
+            return a
+        return self.unsequenced_args(params, a, cx)
+
     def hoist_throwing(self, v, pt, cx):
         """initialising a by-value parameter may raise (user copy / move constructor): in units with unwinding edges it
         is done in a statement of its own, so that the call is not made when it did"""
@@ -905,7 +920,7 @@ class Translator:
                 if d is not None:
                     self.enqueue(d); return f'{self.func_cname(d)}({", ".join([optr()] + self.ghost_args())})'
             if d is None or not self.has_body(d):
-                d2 = self.resolve_method(tcls, name, len(args), self.qt(obj), self.qt(n))
+                d2 = self.resolve_method(tcls, name, len(args), self.qt(obj), self.qt(n), args)
                 if d2 is not None: d = d2
             if d is None:
                 return self.opaque_call(tcls, name, optr(), args, n, cx)
@@ -991,7 +1006,7 @@ class Translator:
             return optr()
         raise Unsupported(f'member call {name} on {tcls} ({tcls.raw}) in {cx.cname}')
 
-    def resolve_method(self, rec, name, nargs, objq, retq=None):
+    def resolve_method(self, rec, name, nargs, objq, retq=None, args=None):
         """find a method definition of a registered record by name / arity / constness (references across AST dumps)"""
         q = None
         for qq, c in self.cnames.items():
@@ -1006,6 +1021,15 @@ class Translator:
             want_const = ' const' in objq or objq.strip().startswith('const ')
             cc = [d for d in cands if d['type']['qualType'].rstrip().endswith('const') == want_const]
             if cc: cands = cc
+        if len(cands) > 1 and args is not None:
+            # several instantiations of a member template that differ in a parameter type (set<U>(U &&)): the one whose
+            # parameter types are the types of the call's arguments
+            def tc(q):
+                try: return self.ctype(q).c
+                except Unsupported: return None
+            at = [tc(self.qt(self.skip(x))) for x in args]
+            cc = [d for d in cands if all(a is None or tc(self.qt(p)) in (None, a) for a, p in zip(at, self.params_of(d)))]
+            if cc: cands = cc
         if len(cands) > 1 and retq:
             # several instantiations of a member template (get<U>): the one whose return type is the call's type
             def rc(d):
@@ -1016,6 +1040,9 @@ class Translator:
             cc = [d for d in cands if want is not None and rc(d) == want]
             if cc: cands = cc
             elif want is not None: return None
+        if len(cands) > 1:
+            # never guess between instantiations: a wrong pick would verify (or refute) the wrong function
+            raise Unsupported(f'call of {rec.c}::{name} with {nargs} argument(s) cannot be resolved to ONE definition across AST dumps ({len(cands)} candidates)')
         return cands[0] if cands else None
 
     def opaque_call(self, rec, name, optr, args, n, cx):
@@ -1243,8 +1270,11 @@ class Translator:
                 else:
                     a.append(self.addr_of(x, cx)); ps.append(f'{tx.c} *a{i}')
             rt = self.ctype(self.qt(n))
+            ps = ps + self.ghost_decls()
+            if self.cfg.get('env_overloads') and cn in self.externs and self.externs[cn] != f'{rt.c} {cn}({", ".join(ps) or "void"})':
+                # overloaded policy function: one stub per signature
+                cn = cn + '__' + '_'.join(re.sub(r'\W+', '', q.rsplit(' ', 1)[0]) for q in ps)
             if cn not in self.externs:
-                ps = ps + self.ghost_decls()
                 self.externs[cn] = f'{rt.c} {cn}({", ".join(ps) or "void"})'
             return f'{cn}({", ".join(a + self.ghost_args())})'
         raise Unsupported(f'call to {nm} in {cx.cname}')
@@ -1344,7 +1374,7 @@ class Translator:
             if c is not None:
                 self.enqueue(c)
                 tmp = cx.tmp('tmp')
-                a = [f'&{tmp}'] + self.pass_args(self.params_of(c), args, cx) + self.ghost_args()
+                a = [f'&{tmp}'] + self.pass_ctor_args(c, n, args, cx) + self.ghost_args()
                 cx.pre.append(f'{t.c} {tmp};')
                 cx.pre.append(f'{self.func_cname(c)}({", ".join(a)});')
                 dt = self.find_dtor(t)
@@ -1621,7 +1651,7 @@ class Translator:
             ctor = self.find_ctor(t, s)
             args = s.get('inner', [])
             cn = self.func_cname(ctor); self.enqueue(ctor)
-            a = [f'&{name}'] + self.pass_args(self.params_of(ctor), args, cx) + self.ghost_args()
+            a = [f'&{name}'] + self.pass_ctor_args(ctor, s, args, cx) + self.ghost_args()
             self.flush_pre(cx)
             cx.emit(f'{cn}({", ".join(a)});')
             self.after_call_hook(ctor, cx)
